@@ -21,6 +21,8 @@ import Golib.Proof.C05Facts
 import Golib.Proof.C05Rebuild
 import Golib.Proof.C05Driver
 import Golib.Proof.C05PtrAll
+import Golib.Proof.C05PtrDfs
+import Golib.Proof.C05Arr
 import Golib.Proof.C05Stream
 import Golib.Proof.C05U32
 import Golib.Proof.C05Fuzzy
@@ -388,6 +390,36 @@ theorem c05_pointer_refines_label :
     fun _ _ _ h id nd hn => rep_children_sorted h id nd hn,
     fun pt t lbl text h => ⟨fun r hr => pfind_api pt t lbl h text r hr,
       fun b hb => pmatch_api pt t lbl h text b hb, fun ws hw => pfindAll_api pt t lbl h text ws hw⟩⟩
+
+/-- `c05_pointer_refines_label` extended to the DFS loops: the pointer-level `PrefixSearch` /
+`FuzzySearch` (`pDfsLoop` with the explicit stack of `(rune, depth, node id)` frames and the
+shared truncated buffer, `pDescend`, `pFuzzyDescend`, `pFuzzyOuter` reading `size` / `fail` /
+the leaf shortcut from the node store) return what the label-level ones return, on every
+pointer state that represents the label trie — so `c05_prefix_exact`, `c05_fuzzy_sound` and
+`c05_fuzzy_spec` hold of the pointer model as well. -/
+theorem c05_pointer_search (pt : PTrie) (t : Trie) (lbl : List Label) (h : Rep pt t lbl)
+    (key : List Nat) :
+    (∀ res, t.prefixSearch key = some res → pt.prefixSearch key = some res) ∧
+    (∀ res, t.fuzzySearch key = some res → pt.fuzzySearch key = some res) :=
+  ⟨fun res hr => pprefix_api pt t lbl h key res hr, fun res hr => pfuzzy_api pt t lbl h key res hr⟩
+
+/-- The array-backed pointer store the oracle executable runs (`Golib/Model/C05Arr.lean`: node
+store `Array PNode`, queue `Array` of ids, every access O(1), so tries of 10^5 nodes are run
+and compared with the real heap) computes exactly what the list-backed pointer model of
+`c05_pointer_refines_label` computes: `Insert`, `BuildFailureLinks` (queue included: `push`,
+`pop`, growth copy, `isFull`, `isEmpty` commute with the abstraction to the `Queue` model),
+`find`, `Match`, `FindAll` commute with `ATrie.toP`. -/
+theorem c05_array_refines :
+    (∀ (a : ATrie) (p : List Step), (a.insert p).map ATrie.toP = a.toP.insert p) ∧
+    (∀ (a : ATrie), a.build.map ATrie.toP = a.toP.build) ∧
+    (∀ (pats : List (List Nat)), (ATrie.ofPatterns pats).map ATrie.toP = PTrie.ofPatterns pats) ∧
+    (∀ (a : ATrie) (text : List Nat), a.find text = a.toP.find text ∧ a.match text = a.toP.match text ∧
+      a.findAll text = a.toP.findAll text) ∧
+    (∀ (q : AQueue) (id : Nat), q.toQ.push (ptrLabel id) = (q.push id).map AQueue.toQ) ∧
+    (∀ (q : AQueue), q.toQ.pop = q.pop.map fun x => (slotLabel x.1, x.2.toQ)) :=
+  ⟨ainsert_toP, abuild_toP, aofPatterns_toP,
+    fun a text => ⟨afind_toP a text, amatch_toP a text, afindAll_toP a text⟩,
+    AQueue.push_toQ, AQueue.pop_toQ⟩
 
 /-- `c05_find_exact` / `c05_find_iff` / `c05_match_iff` / `c05_findall_exact` restated for the
 pointer model: `Insert`* + `BuildFailureLinks` on the zero value never panic, and the
